@@ -96,11 +96,6 @@ package dcp
 //@ params recv useExpiryOpcode useChangeStreams
 //@ modifies nothing
 
-//@ func printConfiguration
-//@ params config
-//@ trusted
-//@ modifies nothing
-
 //@ func newDcp
 //@ params config consumer
 //@ props C18
@@ -177,3 +172,13 @@ package dcp
 //@ requires s != nil && s.stream != nil
 //@ ensures.asks_for_a_save[C05] calls(stream.Stream.Save) == 1 && arg(stream.Stream.Save, 0, recv) == s.stream
 //@ modifies calls(stream.Stream.Save)
+
+// Printing the configuration prints it: the live settings (and the maps they share with the printed copy) stay as
+// they are - the only masked value is the password field of the printed copy (C17).
+//@ func printConfiguration
+//@ params config
+//@ props C17
+//@ requires logger.Log != nil
+//@ ensures.prints_only[C17] forall k string :: has(config.Metadata.Config, k) == old(has(config.Metadata.Config, k)) && (has(config.Metadata.Config, k) ==> config.Metadata.Config[k] == old(config.Metadata.Config[k]))
+//@ ensures.membership_untouched[C17] forall k string :: has(config.Dcp.Group.Membership.Config, k) == old(has(config.Dcp.Group.Membership.Config, k)) && (has(config.Dcp.Group.Membership.Config, k) ==> config.Dcp.Group.Membership.Config[k] == old(config.Dcp.Group.Membership.Config[k]))
+//@ modifies nothing
